@@ -28,6 +28,7 @@ union aligned_storage_impl {
     };
 
     char real_data[Cap];
+    maybe<short> s;
     maybe<int> a;
     maybe<long> b;
     maybe<long long> c;
